@@ -500,7 +500,9 @@ def apply_stage(st, s):
     else:
         raise Invalid(f"stage {k}")
     if not row_only:
-        st.feats_ok = False
+        # the label stays the column it was given as (moved by column drops, renamed by sparse header maps); the parts
+        # stop being defined only when a stage drops that column or rebuilds the rows (EncodeCatRows)
+        st.feats_ok = st.feats_ok and st.label is not None
         st.arff_fresh = False
     elif k == "cat" and s["tipe"] is not None:
         pass
